@@ -133,3 +133,14 @@ def curve_set(rng, n_curves=None, n_freq=None, kind=None, grid=None):
             a = np.full(n_freq, rng.uniform(0.5, 3)) if rng.random() < 0.5 else np.linspace(1, rng.uniform(1.5, 4), n_freq)
         amp[i] = a
     return f, amp, str(kind)
+
+
+def maybe_large(rng, ctx, normal, large, p_quick=0.01, p_thorough=0.03):
+    """`normal`, or - now and then - a size from `large`: sizes beyond the thresholds at which implementations switch
+    strategy (blocks of 2^10 .. 2^20 samples, hundreds to thousands of windows / recordings / grid points).  Counted, so
+    that the evidence shows how many such cases ran."""
+    p = p_thorough if getattr(ctx, "tier", "quick") == "thorough" else p_quick
+    if rng.random() < p:
+        ctx.count("large_size_cases")
+        return int(rng.choice(large)), True
+    return normal, False
